@@ -9,9 +9,6 @@ attribute [local simp] exec exec1 execCases evalE evalEs isOneOf binop convert o
 
 /-! ## vocabulary -/
 
-/-- the document's two shared buffers, as the store holds them -/
-def bufEnv (pj : PJ) : Env := [("Strings.B", .bytes pj.strings), ("Message", .bytes pj.msg)]
-
 /-- a function has not touched the document: same tape, same string buffer, same message -/
 def Keeps (pj : PJ) (s : St) : Prop :=
   s.tape = pj.tape ∧ s.env.get "Strings.B" = some (.bytes pj.strings) ∧ s.env.get "Message" = some (.bytes pj.msg)
@@ -127,5 +124,253 @@ theorem stringBytes_sim (pj : PJ) (i : Iter) (hl : i.lim ≤ pj.tape.size) (hb :
           apply iterAt_of_gets <;> simp [Env.get_set, g1, g2, g3, g4]
   · have ht' : (i.t != 34) = true := by simp [ht]
     simp [g1, g4, g5, ht, ht', SimBytes, Keeps, hS, hM, hI]
+
+/-- `Bool()`: returns `(v, nil)` / `(false, non-nil)`, receiver and tape unchanged -/
+def SimBool (tape : Array UInt64) (i : Iter) (o : Out) (r : Res Bool) : Prop :=
+  match r with
+  | .ok v => ∃ s, o = .ret s [.bool v, .bool false] ∧ s.tape = tape ∧ iterAt s.env "i" = some i
+  | .error _ => ∃ s, o = .ret s [.bool false, .bool true] ∧ s.tape = tape ∧ iterAt s.env "i" = some i
+  | _ => False
+
+/-- `Bool` IS `Iter.bool`, on any store that starts with the receiver, for any tape and fuel. -/
+theorem bool_sim (i : Iter) (rest : Env) (tape : Array UInt64) (fuel : Nat) :
+    SimBool tape i (runFun goFuns goIter_Bool fuel ⟨envOf "i" i ++ rest, tape⟩) i.bool := by
+  have hI : iterAt (envOf "i" i ++ rest) "i" = some i := by simp [envOf, Env.get, iterAt]
+  generalize envOf "i" i ++ rest = e0 at hI
+  obtain ⟨g1, g2, g3, g4, g5⟩ := iterAt_get_i _ _ hI
+  unfold Iter.bool
+  simp only [goIter_Bool, tagBoolTrue, tagBoolFalse]
+  by_cases h1 : i.t = 116
+  · simp [g4, h1, SimBool, hI]
+  · have h1' : ¬ (116 : UInt8) = i.t := fun h => h1 h.symm
+    by_cases h2 : i.t = 102
+    · simp [g4, h2, SimBool, hI]
+    · have h2' : ¬ (102 : UInt8) = i.t := fun h => h2 h.symm
+      simp [g4, h1, h2, h1', h2', SimBool, hI]
+
+/-! ## 3. `Object.NextElementBytes` -/
+
+/-- the outcome of the callee, handed back to the caller by `callFun` -/
+theorem SimNE_back (pj : PJ) (d0 : Iter) (s : St) (o : Out) (r : Res (View × Option (Bytes × Iter × UInt8)))
+    (h : SimNE pj d0 o r) : SimNE pj d0 (backNEB s o) r := by
+  cases r with
+  | ok p =>
+    obtain ⟨v', x⟩ := p
+    cases x with
+    | none =>
+      obtain ⟨s', rfl, hi'⟩ := h
+      rw [backNEB_ret s s' _ pj v' d0 hi']
+      exact ⟨_, rfl, NEInit_backEnv _ _ _ _⟩
+    | some y =>
+      obtain ⟨name, d, ty⟩ := y
+      obtain ⟨s', rfl, hi'⟩ := h
+      rw [backNEB_ret s s' _ pj v' d hi']
+      exact ⟨_, rfl, NEInit_backEnv _ _ _ _⟩
+  | error e =>
+    obtain ⟨s', v', d', rfl, hi'⟩ := h
+    rw [backNEB_ret s s' _ pj v' d' hi']
+    exact ⟨_, v', d', rfl, NEInit_backEnv _ _ _ _⟩
+  | panic =>
+    simp only [SimNE] at h
+    subst h
+    rfl
+  | diverge => exact h.elim
+
+theorem SimNE.final {pj : PJ} {d0 : Iter} {o : Out} {r : Res (View × Option (Bytes × Iter × UInt8))}
+    (h : SimNE pj d0 o r) : Out.final o = true := by
+  cases r with
+  | ok p =>
+    obtain ⟨v', x⟩ := p
+    cases x with
+    | none => obtain ⟨s', rfl, _⟩ := h; rfl
+    | some y => obtain ⟨name, d, ty⟩ := y; obtain ⟨s', rfl, _⟩ := h; rfl
+  | error e => obtain ⟨s', v', d', rfl, _⟩ := h; rfl
+  | panic => simp only [SimNE] at h; subst h; rfl
+  | diverge => exact h.elim
+
+/-- one activation of `NextElementBytes`, given the recursive call (`ih`) -/
+theorem neb_step (pj : PJ) (hb : BufOK pj) (v : View) (d : Iter) (f m : Nat) (e : Env) (hsz : v.lim ≤ pj.tape.size)
+    (hi : NEInit pj v d ⟨e, pj.tape⟩)
+    (ih : ∀ v' : View, v'.lim = v.lim → v.off < v'.off → v.off < v.lim →
+      SimNE pj d (exec goFuns f goObject_NextElementBytes.body ⟨neEnv v' d pj, pj.tape⟩)
+        (View.nextElementBytes pj v' m)) :
+    SimNE pj d (exec goFuns (f + 1) goObject_NextElementBytes.body ⟨e, pj.tape⟩)
+      (View.nextElementBytes pj v (m + 1)) := by
+  obtain ⟨lim, off⟩ := v
+  simp only at hsz ih
+  obtain ⟨v1, v2⟩ := viewAt_get_o _ _ hi.view
+  simp only at v1 v2
+  rw [neb_split, exec_append, neb_pre e pj.tape (f + 1) off lim v1 v2 hsz, View.nextElementBytes]
+  have hi3 : NEInit pj ⟨lim, off⟩ d ⟨((e.set "name" (.bytes #[])).set "t" (.u8 0)).set "err" (.bool false), pj.tape⟩ :=
+    ((hi.set "name" _ (by decide)).set "t" _ (by decide)).set "err" _ (by decide)
+  generalize ((e.set "name" (.bytes #[])).set "t" (.u8 0)).set "err" (.bool false) = e3 at hi3 ⊢
+  by_cases h : off ≥ lim
+  · simp only [h, dif_pos, if_true, SimNE, typeNone]
+    exact ⟨_, rfl, hi3⟩
+  · have hlt : off < lim := by omega
+    have hr : pj.tape[off]? = some (pj.tape[off]'(by omega)) := by simp
+    simp only [h, dif_neg, not_false_eq_true, if_false, rd, hr, Res.bind_ok]
+    generalize pj.tape[off]'(by omega) = w
+    have hi4 : NEInit pj ⟨lim, off⟩ d ⟨e3.set "v" (.u64 w), pj.tape⟩ := hi3.set "v" _ (by decide)
+    have hv4 : (e3.set "v" (.u64 w)).get "v" = some (.u64 w) := Env.get_set_self _ _ _
+    generalize e3.set "v" (.u64 w) = e4 at hi4 hv4 ⊢
+    obtain ⟨x1, x2⟩ := viewAt_get_o _ _ hi4.view
+    simp only at x1 x2
+    rw [exec, neb_switch e4 pj.tape (f + 1) w hv4]
+    simp only [tagString, tagObjectEnd, tagNop]
+    by_cases t1 : tagOf w = 34
+    · -- TagString
+      simp only [t1, if_true, beq_self_eq_true]
+      by_cases hs : off + 2 ≥ lim
+      · rw [neb_str_short pj e4 (f + 1) off lim d w hi4 hv4 hsz hs]
+        simp only [hs, if_true, SimNE, typeNone]
+        exact ⟨_, _, _, rfl, hi4⟩
+      · have hr1 : pj.tape[off + 1]? = some (pj.tape[off + 1]'(by omega)) := by simp
+        have hr2 : pj.tape[off + 2]? = some (pj.tape[off + 2]'(by omega)) := by simp
+        have hstr := neb_str_long pj e4 f off lim d w _ hb hi4 hv4 hsz hs hr1
+        simp only [hs, if_false, hr1, hr2, Res.bind_ok]
+        generalize pj.tape[off + 1]'(by omega) = len at hstr ⊢
+        rcases stringByteAt_cases pj (payloadOf w) len with ⟨nm, hnm⟩ | hnm
+        · rw [hnm] at hstr ⊢
+          obtain ⟨e', he', hi', hn'⟩ := hstr
+          rw [he']
+          simp only [Res.bind_ok]
+          have ht := neb_tail pj e' f (off + 2) lim d nm hi' hn' (by omega) hsz
+          simpa [tailModel] using ht
+        · rw [hnm] at hstr ⊢
+          obtain ⟨e', he', hi'⟩ := hstr
+          rw [he']
+          simp only [Res.bind_error, SimNE, typeNone]
+          exact ⟨_, _, _, rfl, hi'⟩
+    · have b1 : (tagOf w == 34) = false := by simp [t1]
+      simp only [t1, b1, if_false, Bool.false_eq_true]
+      by_cases t2 : tagOf w = 125
+      · simp only [t2, if_true, beq_self_eq_true, SimNE, typeNone]
+        exact ⟨_, rfl, hi4⟩
+      · have b2 : (tagOf w == 125) = false := by simp [t2]
+        simp only [t2, b2, if_false, Bool.false_eq_true]
+        by_cases t3 : tagOf w = 78
+        · -- TagNop
+          simp only [t3, if_true, beq_self_eq_true]
+          rw [neb_nop e4 pj.tape f off w x1 hv4]
+          have hz : (payloadOf w = 0) ↔ (payloadOf w).toNat = 0 := by rw [← UInt64.toNat_inj]; rfl
+          by_cases h0 : (payloadOf w).toNat = 0
+          · simp only [hz, h0, if_true, SimNE, typeNone]
+            exact ⟨_, _, _, rfl, hi4.set "skip" _ (by decide)⟩
+          · simp only [hz, h0, if_false]
+            have hi5 := (hi4.set "skip" (.int (payloadOf w).toNat) (by decide)).setOff (off + (payloadOf w).toNat)
+            simp only [] at hi5
+            rw [callFun_neb _ pj _ d f hi5]
+            have key := SimNE_back pj d
+              ⟨(e4.set "skip" (.int (payloadOf w).toNat)).set "o.off" (.int ((off + (payloadOf w).toNat : Nat) : Int)),
+                pj.tape⟩ _ _ (ih ⟨lim, off + (payloadOf w).toNat⟩ rfl (by simp only; omega) hlt)
+            generalize backNEB _ _ = out at key ⊢
+            have hfin := key.final
+            cases out <;> simp only [Out.final, Bool.false_eq_true] at hfin <;> exact key
+        · have b3 : (tagOf w == 78) = false := by simp [t3]
+          simp only [t3, b3, if_false, Bool.false_eq_true, SimNE, typeNone]
+          exact ⟨_, _, _, rfl, hi4⟩
+
+/-- the recursion: every nested call starts at a strictly larger offset, so `lim - off + 1` units of fuel pay for all
+    activations (and for the calls of `stringByteAt` / `calcNext` inside the last one); the model's own fuel is
+    bounded the same way -/
+theorem neb_exec (pj : PJ) (hb : BufOK pj) :
+    ∀ (n : Nat) (v : View) (d : Iter) (fuel mfuel : Nat) (e : Env), v.lim - v.off ≤ n → n + 1 ≤ fuel → n + 1 ≤ mfuel →
+      v.lim ≤ pj.tape.size → NEInit pj v d ⟨e, pj.tape⟩ →
+      SimNE pj d (exec goFuns fuel goObject_NextElementBytes.body ⟨e, pj.tape⟩) (View.nextElementBytes pj v mfuel) := by
+  intro n
+  induction n with
+  | zero =>
+    intro v d fuel mfuel e hn hf hm hsz hi
+    obtain ⟨f, rfl⟩ : ∃ f, fuel = f + 1 := ⟨fuel - 1, by omega⟩
+    obtain ⟨m, rfl⟩ : ∃ m, mfuel = m + 1 := ⟨mfuel - 1, by omega⟩
+    exact neb_step pj hb v d f m e hsz hi (fun v' _ _ h3 => by omega)
+  | succ n ih =>
+    intro v d fuel mfuel e hn hf hm hsz hi
+    obtain ⟨f, rfl⟩ : ∃ f, fuel = f + 1 := ⟨fuel - 1, by omega⟩
+    obtain ⟨m, rfl⟩ : ∃ m, mfuel = m + 1 := ⟨mfuel - 1, by omega⟩
+    refine neb_step pj hb v d f m e hsz hi (fun v' h1 h2 h3 => ?_)
+    exact ih v' d f m _ (by omega) (by omega) (by omega) (by omega) (NEInit_neEnv pj v' d)
+
+/-- `NextElementBytes` IS `View.nextElementBytes`.
+    Store: the receiver `o` (view `v`), `*dst = d0` (arbitrary: no result depends on it), the two buffers.
+    Fuel: `v.lim - v.off + 1` for the interpreter (recursion depth) and for the model (which then does not diverge). -/
+theorem nextElementBytes_sim (pj : PJ) (hb : BufOK pj) (v : View) (d0 : Iter) (hl : v.lim ≤ pj.tape.size)
+    (fuel mfuel : Nat) (hf : v.lim - v.off + 1 ≤ fuel) (hm : v.lim - v.off + 1 ≤ mfuel) :
+    SimNE pj d0 (runFun goFuns goObject_NextElementBytes fuel ⟨neEnv v d0 pj, pj.tape⟩)
+      (View.nextElementBytes pj v mfuel) := by
+  have key := neb_exec pj hb (v.lim - v.off) v d0 fuel mfuel (neEnv v d0 pj) (Nat.le_refl _) hf hm hl
+    (NEInit_neEnv pj v d0)
+  rw [runFun_final _ _ _ _ key.final]
+  exact key
+
+/-- with `lim - off + 1` units of fuel the model does not run out of fuel -/
+theorem nextElementBytes_no_diverge (pj : PJ) (hb : BufOK pj) (v : View) (hl : v.lim ≤ pj.tape.size) (mfuel : Nat)
+    (hm : v.lim - v.off + 1 ≤ mfuel) : View.nextElementBytes pj v mfuel ≠ .diverge := by
+  intro h
+  have := nextElementBytes_sim pj hb v default hl _ mfuel (Nat.le_refl _) hm
+  rw [h] at this
+  exact this
+
+/-- the relation read backwards: the returned `error` and a panic determine the class of the model's result.
+    (`(nil, TypeNone, nil)` alone does not tell "no more elements" from an element with an empty name whose tag has no
+    `Type` — neither in Go, where callers test `t == TypeNone`, nor here, where `nil` and `[]byte{}` are both `#[]`.) -/
+theorem SimNE.iff {pj : PJ} {d0 : Iter} {o : Out} {r : Res (View × Option (Bytes × Iter × UInt8))}
+    (h : SimNE pj d0 o r) :
+    ((∃ s a b, o = .ret s [a, b, .bool false]) ↔ ∃ x, r = .ok x) ∧
+    ((∃ s a b, o = .ret s [a, b, .bool true]) ↔ ∃ e, r = .error e) ∧
+    (o = .panic ↔ r = .panic) := by
+  cases r with
+  | ok p =>
+    obtain ⟨v', x⟩ := p
+    have ho : ∃ s a b, o = .ret s [a, b, .bool false] := by
+      cases x with
+      | none => obtain ⟨s', rfl, _⟩ := h; exact ⟨_, _, _, rfl⟩
+      | some y => obtain ⟨name, d, ty⟩ := y; obtain ⟨s', rfl, _⟩ := h; exact ⟨_, _, _, rfl⟩
+    obtain ⟨s, a, b, rfl⟩ := ho
+    refine ⟨⟨fun _ => ⟨_, rfl⟩, fun _ => ⟨_, _, _, rfl⟩⟩, ⟨?_, ?_⟩, ⟨?_, ?_⟩⟩
+    · rintro ⟨s', a', b', h'⟩; simp at h'
+    · rintro ⟨e, h'⟩; cases h'
+    · intro h'; cases h'
+    · intro h'; cases h'
+  | error e =>
+    obtain ⟨s, v', d', rfl, _⟩ := h
+    refine ⟨⟨?_, ?_⟩, ⟨fun _ => ⟨_, rfl⟩, fun _ => ⟨_, _, _, rfl⟩⟩, ⟨?_, ?_⟩⟩
+    · rintro ⟨s', a', b', h'⟩; simp at h'
+    · rintro ⟨x, h'⟩; cases h'
+    · intro h'; cases h'
+    · intro h'; cases h'
+  | panic =>
+    simp only [SimNE] at h
+    subst h
+    refine ⟨⟨?_, ?_⟩, ⟨?_, ?_⟩, ⟨fun _ => rfl, fun _ => rfl⟩⟩
+    · rintro ⟨s', a', b', h'⟩; cases h'
+    · rintro ⟨x, h'⟩; cases h'
+    · rintro ⟨s', a', b', h'⟩; cases h'
+    · rintro ⟨x, h'⟩; cases h'
+  | diverge => exact h.elim
+
+/-! ## 4. bundle -/
+
+/-- `stringByteAt`, `Iter.StringBytes`, `Iter.Bool`, `Object.NextElementBytes` of /repo, as translated, ARE the hand
+    model.  Hypotheses: `BufOK pj` (buffer lengths are Go `int`s) and views inside the tape. -/
+theorem go_object_source_tie (pj : PJ) (hb : BufOK pj) (n : Int) (off len : UInt64) (i d0 : Iter) (v : View)
+    (rest : Env) (hi : i.lim ≤ pj.tape.size) (hv : v.lim ≤ pj.tape.size) (fuel : Nat)
+    (hf : v.lim - v.off + 1 ≤ fuel) :
+    SimBytes pj (fun e => e.get "pj.lim" = some (.int n))
+      (runFun goFuns goParsedJson_stringByteAt fuel
+        ⟨[("pj.lim", .int n), ("Strings.B", .bytes pj.strings), ("Message", .bytes pj.msg), ("offset", .u64 off),
+          ("length", .u64 len)], pj.tape⟩)
+      (stringByteAt pj off len) ∧
+    (stringByteAt pj off len).safe = true ∧
+    SimBytes pj (fun e => iterAt e "i" = some i)
+      (runFun goFuns goIter_StringBytes fuel ⟨envOf "i" i ++ bufEnv pj, pj.tape⟩) (i.stringBytes pj) ∧
+    SimBool pj.tape i (runFun goFuns goIter_Bool fuel ⟨envOf "i" i ++ rest, pj.tape⟩) i.bool ∧
+    SimNE pj d0 (runFun goFuns goObject_NextElementBytes fuel ⟨neEnv v d0 pj, pj.tape⟩)
+      (View.nextElementBytes pj v fuel) ∧
+    View.nextElementBytes pj v fuel ≠ .diverge :=
+  ⟨stringByteAt_sim pj n off len fuel hb, stringByteAt_safe pj off len,
+   stringBytes_sim pj i hi hb fuel (by omega), bool_sim i rest pj.tape fuel,
+   nextElementBytes_sim pj hb v d0 hv fuel fuel hf hf, nextElementBytes_no_diverge pj hb v hv fuel hf⟩
 
 end SJ.GoObject
